@@ -43,7 +43,10 @@ def random_split_case(rng, max_windows=60, small_rate=True, allow_partial=True, 
         uc = rng.choice((None, None, 0, "mix"))
     lo, hi = A.THR_RANGE[width]
     thr = round(rng.uniform(lo, hi), rng.choice((0, 1, 3)))
-    if rng.random() < 0.08:
+    r_ = rng.random()
+    if r_ < 0.03:
+        thr = rng.choice((-250, -250.0, -1000))  # below the -200 dB floor of digital silence: every window is active
+    elif r_ < 0.11:
         thr = rng.choice((0, 0.0))  # a falsy threshold is a perfectly good threshold (0 dB: any non-zero window is active)
     return dict(rate=rate, width=width, channels=channels, block=block, w=w, min_len=min_len, max_len=max_len,
                 max_sil=max_sil, drop=drop, strict=strict, v=v, partial=partial, uc=uc, thr=thr,
@@ -60,7 +63,9 @@ def build_audio(case):
         n = len(case["v"]) * case["block"] - ((case["block"] - case["partial"]) if case["partial"] else 0)
         data = A.random_pcm(rng, max(n, 0), case["width"], case["channels"])
     else:
-        data, _ = A.synth(rng, case["v"], case["width"], case["channels"], case["block"], case["thr"], uc,
+        # below the -200 dB floor nothing can be 'quiet': synthesize around an ordinary level, the model decides with the real threshold
+        synth_thr = case["thr"] if case["thr"] > -190 else 20.0
+        data, _ = A.synth(rng, case["v"], case["width"], case["channels"], case["block"], synth_thr, uc,
                           partial_last=case["partial"])
     verdicts = A.model_verdicts(data, case["width"], case["channels"], case["block"], case["thr"], uc)
     if verdicts is None:
